@@ -183,7 +183,7 @@ def preimport():
 
 SUBS = [
     Sub("solo_vs_batched", execute, strategy=lambda tier: episode_cases(tier, ALL_ENVS),
-        budget={"quick": 2500, "thorough": 40000}, shards=16),
+        budget={"quick": 3500, "thorough": 40000}, shards=16),
     Sub("copies", execute_copies_wrap, strategy=copies_cases, budget={"quick": 800, "thorough": 10000}, shards=16),
 ]
 TIME_CAP = {"quick": 400, "thorough": 3000}
